@@ -214,8 +214,8 @@ func Scenarios(tier string) []*Scenario {
 	if tier == "thorough" {
 		return []*Scenario{healthy, leak, dep, phase0only, altairLong, sameEpoch, eject, mass, wd, sync32, depP0, oddVec}
 	}
-	// quick tier: the full menu on the healthy history only (the leak history repeats it under other balances)
-	leak.Menu = SmallMenu
+	// quick tier: the full menu on the healthy and the leak history (late attestations only change something where
+	// participation was partial); the interacting sub-menu on the phase0-only history
 	phase0only.Menu = SmallMenu
 	return []*Scenario{healthy, mass, dep, depP0, wd, leak, phase0only}
 }
